@@ -203,6 +203,11 @@ def structural_eq(I, run, a, b, node, fork=True) -> Optional[bool]:
         e, o = (a, b) if isinstance(a, Ext) else (b, a)
         if e.name in EXT_CONST and isinstance(o, C):
             return EXT_CONST[e.name] == o.v
+        if e.name.startswith("errno.") and isinstance(o, C):
+            import errno as _errno
+            ev = getattr(_errno, e.name[6:], None)
+            if ev is not None:
+                return ev == o.v
         if isinstance(o, C) and o.v is None:
             return False
         return _memo_bool(I, run, ("cmp", "==") + tuple(sorted([a.key(), b.key()], key=repr)), node,
